@@ -44,6 +44,9 @@ type DiceSpec struct {
 	// follows it (the grammar takes the suffixes in any order and number)
 	PreKind string `json:",omitempty"`
 	PreVal  int64  `json:",omitempty"`
+	// wod / dc, VM only: the pool is written as a nested pool term '(<Pool>a0m<NestM>k1)', whose value is
+	// Pool by construction (every die of it succeeds, none is added): a term inside a term
+	NestM int64 `json:",omitempty"`
 }
 
 type C04Scenario struct {
@@ -130,6 +133,9 @@ func genDiceSpec(r *Rng) DiceSpec {
 			}
 		}
 	}
+	if (d.Fam == "wod" || d.Fam == "dc") && d.Via == "vm" && r.Chance(1, 4) {
+		d.NestM = bnd(100, 6, 20, 3, 1000)
+	}
 	// exploding pools with a low add line grow geometrically under a real stream too: keep them small
 	if (d.Fam == "wod" || d.Fam == "dc") && d.AddLine >= 2 && d.Points > 0 && d.AddLine*2 <= d.Points+1 && d.Source != "explode" && d.Source != "low" && d.Source != "min" {
 		d.Source = "explode"
@@ -186,7 +192,7 @@ func (d *DiceSpec) term() string {
 	case "fate":
 		return "f"
 	case "wod":
-		s := p(d.Pool) + "a" + p(d.AddLine)
+		s := d.poolText(p) + "a" + p(d.AddLine)
 		if d.HasPoints {
 			s += "m" + p(d.Points)
 		}
@@ -202,13 +208,22 @@ func (d *DiceSpec) term() string {
 		}
 		return s
 	default:
-		s := p(d.Pool) + "c" + p(d.AddLine)
+		s := d.poolText(p) + "c" + p(d.AddLine)
 		if d.HasPoints {
 			s += "m" + p(d.Points)
 		}
 		return s
 	}
 }
+
+func (d *DiceSpec) poolText(p func(int64) string) string {
+	if d.NestM > 0 && d.Via == "vm" && d.Pool >= 1 && d.Pool <= 12 {
+		return "(" + p(d.Pool) + "a0m" + p(d.NestM) + "k1)"
+	}
+	return p(d.Pool)
+}
+
+func (d *DiceSpec) nested() bool { return d.NestM > 0 && d.Via == "vm" && d.Pool >= 1 && d.Pool <= 12 }
 
 // legal says whether the parameters are legal (VM-level rules).
 func (d *DiceSpec) legal() bool {
@@ -593,10 +608,14 @@ func c04Exec(raw json.RawMessage, res *RunResult) {
 					err = fmt.Errorf("<result is not an int: %s>", Canon(vm.Ret))
 					return
 				}
+				first := true
+				var b0, e0 ds.IntType
 				for _, sp := range vm.DetailSpans {
-					if strings.HasPrefix(sp.Tag, "dice") {
+					// the outermost dice span (a nested pool operand has a span of its own inside it)
+					if strings.HasPrefix(sp.Tag, "dice") && (first || sp.Begin <= b0 && sp.End >= e0) {
 						spanRet = sp.Ret
 						text = sp.Text
+						b0, e0, first = sp.Begin, sp.End, false
 					}
 				}
 			}
@@ -626,7 +645,8 @@ func c04Exec(raw json.RawMessage, res *RunResult) {
 			res.Probe("illegal_parameters")
 			if err == nil {
 				res.Violate("illegal-accepted@"+d.Fam, "%s: illegal parameters produced the number %d instead of an error", what, total)
-			} else if len(ledger) > 0 {
+			} else if len(ledger) > 0 && !(d.nested() && len(ledger) <= int(d.Pool)) {
+				// (a nested pool operand is a term of its own and rolls before the outer parameters are looked at)
 				res.Violate("illegal-rolled@"+d.Fam, "%s: rejected (%v) but %d dice were drawn first", what, err, len(ledger))
 			}
 			continue
@@ -640,8 +660,25 @@ func c04Exec(raw json.RawMessage, res *RunResult) {
 			res.Probe("legal_but_refused")
 			continue
 		}
+		if d.nested() {
+			// the nested operand's dice come first: Pool dice of NestM sides
+			bad := len(ledger) < int(d.Pool)
+			for i := 0; !bad && i < int(d.Pool); i++ {
+				bad = ledger[i].Sides != d.NestM
+			}
+			if bad {
+				res.Violate("nested-pool-dice@"+d.Fam, "%s: the nested pool operand must roll %d dice of %d sides first; drawn: %s", what, d.Pool, d.NestM, trunc(fmt.Sprint(ledger), 200))
+				continue
+			}
+			ledger = ledger[d.Pool:]
+			res.Probe("nested_pool_term")
+		}
 		var faces []int64
 		for _, e := range ledger {
+			if (d.Fam == "wod" || d.Fam == "dc") && e.Sides != d.Points {
+				res.Violate("die-sides-mismatch@"+d.Fam, "%s: the term rolls d%d, a die of %d sides was drawn (showing %d)", what, d.Points, e.Sides, e.Face)
+				break
+			}
 			// (1) legality of every face
 			if e.Sides > 0 && (e.Face < 1 || e.Face > e.Sides) {
 				res.Violate("face-out-of-range@"+d.Fam, "%s: a d%d showed %d", what, e.Sides, e.Face)
